@@ -143,7 +143,11 @@ def check_property(pid, tier, keep=False):
                 undecided.append("%s: assume/admit inside verified text: %s" % (uname, tr["assume"] + tr["admit"]))
             for k, v in U.clause_counts(b).items():
                 clauses[k] = clauses.get(k, 0) + v
+            seen_obl = set()
             for f in failures:
+                if f["obligation"] in seen_obl:
+                    continue
+                seen_obl.add(f["obligation"])
                 if pid in f["props"]:
                     kf = [k for k in known if k["obligation"] in f["obligation"]]
                     if kf:
@@ -307,4 +311,11 @@ if __name__ == "__main__":
         sys.exit(main(sys.argv[1:]))
     except U.UnitError as e:
         print("UNDECIDED:", e)
+        sys.exit(2)
+    except SystemExit:
+        raise
+    except BaseException as e:  # a tool problem is never an alarm
+        import traceback
+        traceback.print_exc()
+        print("UNDECIDED: internal error of the checking machinery: %r" % (e,))
         sys.exit(2)
